@@ -34,9 +34,11 @@ structure SInv (s : State) : Prop where
   bufLive : ∀ b ∈ s.bufs, ∃ m ∈ s.mems, m.buf = b.id
   memSlots : (s.mems.map (·.slot)).Nodup
   memBelow : ∀ m ∈ s.mems, m.slot < NSLOT
+  /-- a slot names one memory object: no device memory shares its slot with a pool reservation -/
+  cross : ∀ m ∈ s.mems, ∀ i p, s.pool i = some p → findSlot m.slot p.resv = none
 
 theorem sinv_init : SInv {} := by
-  refine ⟨?_, devOK_init, rfl, by simp, by simp, by simp, by simp, by simp⟩
+  refine ⟨?_, devOK_init, rfl, by simp, by simp, by simp, by simp, by simp, by simp⟩
   intro i p hp
   rcases i with _ | _ | i <;> simp [State.pool] at hp
 
@@ -52,8 +54,15 @@ theorem pool_ge_two (s : State) (j : Nat) : s.pool (j + 2) = none := rfl
 theorem sinv_update_pool {s s' : State} (h : SInv s) {i : Nat} {p p' : Pool} (hp : s.pool i = some p)
     (hnf : s.nextFam ≤ s'.nextFam) (hok : PoolOK s'.nextFam p') (hdev : DevStep s.dev s'.dev p p')
     (hpi : s'.pool i = some p') (hpj : ∀ j, j ≠ i → s'.pool j = s.pool j)
-    (hbufs : s'.bufs = s.bufs) (hmems : s'.mems = s.mems) : SInv s' := by
-  refine ⟨?_, hdev.ok, ?_, hbufs ▸ h.bufIds, ?_, ?_, hmems ▸ h.memSlots, hmems ▸ h.memBelow⟩
+    (hbufs : s'.bufs = s.bufs) (hmems : s'.mems = s.mems)
+    (hcross : ∀ m ∈ s.mems, findSlot m.slot p'.resv = none) : SInv s' := by
+  refine ⟨?_, hdev.ok, ?_, hbufs ▸ h.bufIds, ?_, ?_, hmems ▸ h.memSlots, hmems ▸ h.memBelow, ?_⟩
+  rotate_left 4
+  · intro m hm j q hq
+    rw [hmems] at hm
+    by_cases hji : j = i
+    · subst hji; rw [hpi] at hq; cases hq; exact hcross m hm
+    · rw [hpj j hji] at hq; exact h.cross m hm j q hq
   · intro j q hq
     by_cases hji : j = i
     · subst hji; rw [hpi] at hq; cases hq; exact hok
@@ -205,8 +214,9 @@ theorem sinv_update_dev {s s' : State} (h : SInv s) (hnf : s.nextFam ≤ s'.next
     (hacc : s'.dev.alloc + countedBytes s.bufs = s.dev.alloc + countedBytes s'.bufs)
     (hids : (s'.bufs.map (·.id)).Nodup) (hbelow : ∀ b ∈ s'.bufs, b.id < s'.nextFam)
     (hlive : ∀ b ∈ s'.bufs, ∃ m ∈ s'.mems, m.buf = b.id)
-    (hslots : (s'.mems.map (·.slot)).Nodup) (hmb : ∀ m ∈ s'.mems, m.slot < NSLOT) : SInv s' := by
-  refine ⟨?_, hdev, ?_, hids, hbelow, hlive, hslots, hmb⟩
+    (hslots : (s'.mems.map (·.slot)).Nodup) (hmb : ∀ m ∈ s'.mems, m.slot < NSLOT)
+    (hcross : ∀ m ∈ s'.mems, ∀ i p, s.pool i = some p → findSlot m.slot p.resv = none) : SInv s' := by
+  refine ⟨?_, hdev, ?_, hids, hbelow, hlive, hslots, hmb, fun m hm i p hp => hcross m hm i p (hpools i ▸ hp)⟩
   · intro j q hq
     rw [hpools j] at hq
     exact (h.pools j q hq).mono hnf
